@@ -250,7 +250,7 @@ def chunk_rules(repo):
     role = "chunks of all sequences are concatenated in sequence order along the leading axis"
     ret = [s for s in walk_no_nested(ch.node) if isinstance(s, ast.Return)]
     t = unparse(ret[-1].value) if ret else ""
-    ok = t == "torch.cat([x.unfold(-1, size, size - overlap).permute(1, 0, 2) for x in X], dim=0)"
+    ok = t == "torch.cat([x.unfold(-1, size, size - overlap).permute(1, 0, 2) for x in X])"
     out.append((holds if ok else unrecognised)("CHUNKS", ch, role, t[:100], ret[-1] if ret else ch.node, nontrivial=False))
 
     # ---- reassembly branches: R-LEN and R-SLICE0 in the linear domain
